@@ -126,6 +126,9 @@ func (w *World) harnessErr(f string, a ...any) {
 
 // Run executes one simulated run of the given profile.
 func Run(t *sim.Tape, profile, tier string) (res *sim.RunResult) {
+	if profile == "C13" {
+		return RunHeaders(t, tier)
+	}
 	start := time.Now()
 	w := &World{tape: t, log: sim.NewLog(max(200, debugKeep)), stats: sim.Stats{}, tier: tier,
 		ledgers: map[types.BlockID]*ref.Ledger{}, badLedger: map[types.BlockID]bool{}, reach: map[string]bool{}, seenIDs: map[types.Hash256]string{}, stateByBlock: map[types.BlockID]string{}}
